@@ -1059,6 +1059,31 @@ def _m1_escape(prog, res):
                     wr = True
         if wr:
             rewriting[g.usr] = (g, d)
+    # functions that hand out a reference / pointer into a thread_local object: what they return belongs to the calling thread
+    for g in prog.functions.values():
+        rt = (g.get("ret") or "").rstrip()
+        if g.usr in rewriting or not (rt.endswith("&") or rt.endswith("*")) or not g.blocks:
+            continue
+        rets = [n for n in g.walk() if n.k == "ReturnStmt" and n.c and not any(a.k == "LambdaExpr" for a in n.ancestors())]
+        if not rets:
+            continue
+        tl = {}
+        for n in g.walk():
+            if n.k == "DeclRefExpr" and n.decl and n.decl.get("k") == "global" and n.decl.get("tls") and n.decl.get("repo") and not n.decl.get("constq"):
+                tl[n.decl.get("qn", n.decl["n"])] = n.decl
+        if not tl:
+            continue
+        fl = Flow(g, prog, control=False)
+        hit = None
+        for r in rets:
+            roots = fl.root(r.c[0])
+            names = [q for (k_, q) in roots if k_ == "global" and q in tl]
+            if not names:
+                hit = None
+                break
+            hit = tl[names[0]]
+        if hit is not None and not re.search(r"mt19937|mersenne_twister|_distribution<", hit.get("dt", "")):
+            rewriting[g.usr] = (g, hit)
     n_inst = 0
     if not rewriting:
         return 0
@@ -1087,10 +1112,11 @@ def _m1_escape(prog, res):
             n_inst += 1
             rel = prog.rel(f.file)
             res.add("M1:%s:%s:escape" % (f.cls, fld), VIOLATED, "%s:%d" % (rel, x.line), "%s::%s" % (f.cls.rsplit("::", 1)[-1], fld),
-                    "the member %s (%s) is bound to what %s returns, a reference to its %s object %s, which that function rewrites in place "
-                    "when it is called with another argument: after the next such call - by any object - this one reads the other's "
-                    "data, or past it when that is shorter" % (fld, indirect[fld]["type"], g.short, "thread_local" if d.get("tls") else "static", d["n"]),
-                    func=f.name, extra={"props": list(dict.fromkeys(_m1_props(rel) + _m1_props(prog.rel(g.file)) + ["C05"]))})
+                    "the member %s (%s) is bound to what %s returns, a reference into its %s object %s: that storage is rewritten by "
+                    "later calls with another argument%s - the object reads another call's data, or memory that is gone"
+                    % (fld, indirect[fld]["type"], g.short, "thread_local" if d.get("tls") else "static", d["n"],
+                       " and, being thread_local, ends with the thread that constructed this object while the object can be handed on" if d.get("tls") else ""),
+                    func=f.name, extra={"props": list(dict.fromkeys(_m1_props(rel) + _m1_props(prog.rel(g.file)) + ["C05"] + (["C09"] if d.get("tls") else [])))})
     return n_inst
 
 
